@@ -1104,14 +1104,28 @@ func (e *Engine) overlay(r io.Reader, basePath string, asNew bool) error {
 		defer e.mu.Unlock()
 
 		var newFiles []string
+		// When files are installed as new ones, a tombstone file has to follow the
+		// TSM file it belongs to: both get the name chosen for their original name.
+		newNames := make(map[string]string)
 		tr := tar.NewReader(r)
 		for {
-			if fileName, err := e.readFileFromBackup(tr, basePath, asNew); err == io.EOF {
+			if fileName, err := e.readFileFromBackup(tr, basePath, asNew, newNames); err == io.EOF {
 				break
 			} else if err != nil {
 				return nil, err
 			} else if fileName != "" {
 				newFiles = append(newFiles, fileName)
+			}
+		}
+
+		// Move the tombstone files in place before the TSM files are opened, so that
+		// the deletes they record are applied to the restored files.
+		tombstoneTmpExt := fmt.Sprintf(".%s.%s", TombstoneFileExtension, TmpTSMFileExtension)
+		for _, f := range newFiles {
+			if strings.HasSuffix(f, tombstoneTmpExt) {
+				if err := os.Rename(f, strings.TrimSuffix(f, "."+TmpTSMFileExtension)); err != nil {
+					return nil, err
+				}
 			}
 		}
 
@@ -1199,15 +1213,21 @@ func (e *Engine) overlay(r io.Reader, basePath string, asNew bool) error {
 // readFileFromBackup copies the next file from the archive into the shard.
 // The file is skipped if it does not have a matching shardRelativePath prefix.
 // If asNew is true, each file will be installed as a new TSM file even if an
-// existing file with the same name in the backup exists.
-func (e *Engine) readFileFromBackup(tr *tar.Reader, shardRelativePath string, asNew bool) (string, error) {
+// existing file with the same name in the backup exists; newNames records the
+// name given to each original name so that a tombstone file and its TSM file
+// stay together.
+func (e *Engine) readFileFromBackup(tr *tar.Reader, shardRelativePath string, asNew bool, newNames map[string]string) (string, error) {
 	// Read next archive file.
 	hdr, err := tr.Next()
 	if err != nil {
 		return "", err
 	}
 
-	if !strings.HasSuffix(hdr.Name, TSMFileExtension) {
+	ext := TSMFileExtension
+	if strings.HasSuffix(hdr.Name, "."+TombstoneFileExtension) {
+		// The tombstone file of a .tsm file: the deletes recorded in it are part of the shard.
+		ext = TombstoneFileExtension
+	} else if !strings.HasSuffix(hdr.Name, TSMFileExtension) {
 		// This isn't a .tsm file.
 		return "", nil
 	}
@@ -1231,7 +1251,13 @@ func (e *Engine) readFileFromBackup(tr *tar.Reader, shardRelativePath string, as
 	}
 
 	if asNew {
-		filename = e.formatFileName(e.FileStore.NextGeneration(), 1) + "." + TSMFileExtension
+		orig := strings.TrimSuffix(filename, "."+ext)
+		name, ok := newNames[orig]
+		if !ok {
+			name = e.formatFileName(e.FileStore.NextGeneration(), 1)
+			newNames[orig] = name
+		}
+		filename = name + "." + ext
 	}
 
 	tmp := fmt.Sprintf("%s.%s", filepath.Join(e.path, filename), TmpTSMFileExtension)
